@@ -38,3 +38,27 @@ def members_of(relpath):
         after = global_parameters.evaluate
         global_parameters.evaluate = True
         members_of.last_flag = (before, after)
+
+
+def all_documented_sources():
+    """every source the generator walks for generate_laws_docs("symplyphysics", out, ["core"]): modules AND package __init__ files"""
+    out = []
+    top = os.path.join(REPO, "symplyphysics")
+    for path, dirs, files in os.walk(top):
+        rel = os.path.relpath(path, REPO)
+        name = os.path.basename(path)
+        if name.startswith((".", "_")) or rel == "symplyphysics/core" or rel.startswith("symplyphysics/core/"):
+            dirs[:] = []
+            continue
+        dirs[:] = sorted(dirs)
+        for f in sorted(files):
+            if f.endswith(".py") and (not f.startswith("__") or f == "__init__.py"):
+                out.append(os.path.join(rel, f))
+    return out
+
+
+def has_title(relpath):
+    from symplyphysics.docs.parse import find_title_and_description
+    with open(os.path.join(REPO, relpath), "r", encoding="utf-8") as f:
+        doc = ast.get_docstring(ast.parse(f.read()))
+    return doc is not None and find_title_and_description(doc) is not None
